@@ -18,6 +18,7 @@ package internals
 
 func NewPathBuilder() *PathBuilder {
 	pb := PathBuilderPool.Get().(*PathBuilder)
+	VerifEmit("get", "pathbuilder", "", pb)
 	*pb = (*pb)[:1]
 	return pb
 }
@@ -49,5 +50,6 @@ func (p *PathBuilder) String() string {
 }
 
 func (p *PathBuilder) Free() {
+	VerifEmit("put", "pathbuilder", "", p)
 	PathBuilderPool.Put(p)
 }
